@@ -306,6 +306,8 @@ func c20GenJobs(r *rand.Rand, p *c20pool, n int) []c20job {
 			jobs = append(jobs, c20job{kind: "opposite-order", seed: r.Int63(), a: p.pair[0], b: p.pair[1]})
 		case q == 6 && r.Intn(2) == 0:
 			jobs = append(jobs, c20job{kind: "shape-ops-on-a-shared-result", a: p.res[r.Intn(len(p.res))]})
+		case q == 6 && r.Intn(4) == 0:
+			jobs = append(jobs, c20job{kind: "transpose-shared", seed: r.Int63()})
 		case q == 6 && r.Intn(3) == 0:
 			jobs = append(jobs, c20job{kind: "refused-ops", seed: r.Int63(), a: r.Intn(np)})
 		case q == 6 && r.Intn(3) == 0:
@@ -662,6 +664,44 @@ func c20Run(p *c20pool, jobs []c20job, inject *rand.Rand, start time.Time, rec *
 			if e := hashBits(&out, l); e != nil {
 				return out, e
 			}
+		case "transpose-shared": // the same cheap operation on DIFFERENT shared tensors in quick alternation, hundreds of times: each call answers for its own receiver
+			r := rand.New(rand.NewSource(j.seed))
+			var cands []int
+			for i := range p.ts {
+				if len(p.vals[i].Shape) >= 2 && len(p.vals[i].Data) <= 12 && (p.kinds[i] == "untracked-leaf" || p.kinds[i] == "result-of-untracked-leaf") {
+					cands = append(cands, i)
+				}
+			}
+			if len(cands) < 2 {
+				break
+			}
+			for rep := 0; rep < 6; rep++ {
+				// a tight burst (no yields in between): 1500 calls alternating between two or three shared untracked receivers
+				picks := []int{cands[r.Intn(len(cands))], cands[r.Intn(len(cands))], cands[r.Intn(len(cands))]}
+				op := r.Intn(3)
+				var ys []tensor.Tensor
+				if e := span("alternating-shape-op-burst", picks, func() (err error) {
+					for q := 0; q < 1500 && err == nil; q++ {
+						var y tensor.Tensor
+						a := picks[q%len(picks)]
+						switch op {
+						case 0, 1:
+							y, err = p.ts[a].Transpose()
+						default:
+							y, err = p.ts[a].Flatten(0)
+						}
+						ys = append(ys, y)
+					}
+					return err
+				}); e != nil {
+					return out, e
+				}
+				for _, y := range ys {
+					if e := hashBits(&out, y); e != nil {
+						return out, e
+					}
+				}
+			}
 		case "refused-ops": // operations the library must REFUSE (incompatible shapes, bad arguments), made concurrently with sizes that differ per goroutine: the error each one gets is its own
 			r := rand.New(rand.NewSource(j.seed))
 			for rep := 0; rep < 4; rep++ {
@@ -713,6 +753,8 @@ func c20Run(p *c20pool, jobs []c20job, inject *rand.Rand, start time.Time, rec *
 			m, n, kk := 1+r.Intn(4), 4+r.Intn(6), 1+r.Intn(4)
 			if r.Intn(2) == 0 { // large enough for several goroutines to be inside the kernel at the same moment
 				m, n, kk = 8+r.Intn(17), 16+r.Intn(49), 8+r.Intn(17)
+			} else if r.Intn(3) == 0 { // a row times a column (a 1x1 product) before the ordinary ones of this and the other goroutines
+				m, kk = 1, 1
 			}
 			a := rt.MustLeaf(RandT(r, []int{m, n}, -3, 3), false)
 			b := rt.MustLeaf(RandT(r, []int{n, kk}, -3, 3), r.Intn(2) == 0)
@@ -768,7 +810,7 @@ func c20Run(p *c20pool, jobs []c20job, inject *rand.Rand, start time.Time, rec *
 			}
 			shape := p.vals[u].Shape
 			w := rt.MustLeaf(RandT(r, shape, -1, 1), true)
-			variant := r.Intn(6)
+			variant := r.Intn(8)
 			if e := span("private-graph+BackPropagate", []int{u}, func() error {
 				// the shared untracked tensor enters the private graph through an implicitly broadcasting
 				// operation or DIRECTLY as an operand of ElMax / ElMin / Patch / Concat
@@ -789,6 +831,28 @@ func c20Run(p *c20pool, jobs []c20job, inject *rand.Rand, start time.Time, rec *
 					if err == nil {
 						h, err = h.Slice([]tensor.Range{{From: 0, To: shape[0]}})
 					}
+				case variant == 7: // a PRIVATE tensor derived from the shared untracked one is made a trainable leaf (ResetGradContext on one's own
+					// tensor) and trained: the shared constant it was computed from stays what it is for everybody else
+					pv := p.ts[u].Scale(0.5)
+					pv.ResetGradContext(true)
+					if h, err = pv.Mul(w); err == nil {
+						h, err = h.Add(p.ts[u])
+					}
+				case variant == 6: // FIVE shares of different, rounding-sensitive sizes reach w from five contexts of one generation: the order in
+					// which they are added decides the last bits, so it has to be the same order every time (0.1 + 0.2 + 0.3 is not 0.3 + 0.2 + 0.1)
+					var acc tensor.Tensor
+					for q, f := range []float64{0.1, 0.2, 0.3, 0.7, 1e-3} {
+						var part tensor.Tensor
+						if part, err = w.Scale(f).Mul(p.ts[u]); err != nil {
+							break
+						}
+						if q == 0 {
+							acc = part
+						} else if acc, err = acc.Add(part); err != nil {
+							break
+						}
+					}
+					h = acc
 				case variant == 5 && len(shape) >= 1: // ONE private tracked node at four operand positions of one operation (four shares for one tensor)
 					var hs tensor.Tensor
 					if hs, err = w.Mul(p.ts[u]); err == nil {
@@ -907,7 +971,7 @@ func c20Storm(k *fw.K, G int) {
 		a++
 	}
 	jobs := []c20job{{kind: "reducers", a: a}, {kind: "layer", seed: 7}, {kind: "private-matmul", seed: 4}, {kind: "reducers", a: 3}, {kind: "layer", seed: 11},
-		{kind: "private-matmul", seed: 21}, {kind: "shared-loss", seed: 5}, {kind: "refused-ops", seed: 9, a: 3}}
+		{kind: "private-matmul", seed: 21}, {kind: "shared-loss", seed: 5}, {kind: "refused-ops", seed: 9, a: 3}, {kind: "transpose-shared", seed: 13}}
 	want, err := c20Run(pool, jobs, nil, time.Now(), nil)
 	if err != nil {
 		k.Failf("sequential reference run failed: %v", err)
